@@ -75,20 +75,8 @@ theorem oracle_excluded_is_patterns (E : Env) (pats : List Gi.Pat) :
     (oracles E pats).excluded = Gi.excludedWith pats := ⟨rfl, rfl⟩
 
 theorem parseAll_append {a b : List Str} {qa qb : List Gi.Pat} (ha : Gi.parseAll a = some qa)
-    (hb : Gi.parseAll b = some qb) : Gi.parseAll (a ++ b) = some (qa ++ qb) := by
-  induction a generalizing qa with
-  | nil => simp only [Gi.parseAll, Option.some.injEq] at ha; subst ha; simpa using hb
-  | cons s r ih =>
-    simp only [Gi.parseAll] at ha
-    cases hs : Gi.Pat.parse s with
-    | none => simp [hs] at ha
-    | some q =>
-      cases hr : Gi.parseAll r with
-      | none => simp [hs, hr] at ha
-      | some qs =>
-        simp only [hs, hr, Option.some.injEq] at ha
-        subst ha
-        simp [Gi.parseAll, hs, ih hr]
+    (hb : Gi.parseAll b = some qb) : Gi.parseAll (a ++ b) = some (qa ++ qb) :=
+  Gi.parseAll_append ha hb
 
 /-- **`Scanner.generate_exclude_spec`, lines 169-173**: the list handed to
 `PathSpec.from_lines("gitignore", …)` is the built-in names, then `Configuration.exclude`, then the
